@@ -65,6 +65,8 @@ def analyse(case, d):
     if inv:
         bad.append("forced-exits-not-in-reverse-enter-order")
     r = d["raised"]
+    if r in ("cancelled", "closed") and S.extras_of(case, "cancel"):
+        r = "-"
     leafs = [x for x, _, _ in S.all_specs(case) if x[0] == "leaf"]
     if r.startswith("other:") or (r in ("kbint", "sysexit") and not (any(x[3] == r for x in leafs) or (r == "sysexit" and any(o == "sysexit" for x in leafs for _, o in x[4])))):
         bad.append("unexpected-exception-from-do:" + r.split(":")[-1])
@@ -79,7 +81,7 @@ class C02(S.SchedCheck):
                  "differential run against hio.base.doing; episode-based order oracle on the real trace")
     level_text = ("Lean theorems for every program/limit/fuel: forced_exit_before_return (full strength, no hypothesis: per id #enter = #exit in the trace of every run, incl. extend, remove, KeyboardInterrupt, failing enters), group_exit_balanced; forced_close_reverse_nested (every forced stop = the complete close blocks of the live deeds in exactly reverse deque order, for every state), children_before_parent / _raised / _enter_fail / clean_group_has_no_live_child (every code path that emits a DoDoer's exitEnd has closed all its live deeds between exit and exitEnd, counting invariant), deque_keeps_enter_order_partial + enter_keeps_spec_order + forced_exit_order_partial (the deque order is the enter order, hence the final Doist.exit() closes in reverse enter order, under the guard that no top-level doer of that scheduler extends). The unguarded order clause is FALSE in the code (forced_exit_order_fails_after_extend, decide) = known finding C02-K1 (pre-finding F03). All of it is also proved for Model2 (exception kinds at steps and enters, failing clean actions: the *2 theorems), and for Model3 (ops issued from cease/exit actions, re-entrant forced shutdown) the exit clause: forced_exit_before_return3_reentrant (no hypothesis on the program; starved=false = the model's close fuel sufficed) and group_exit_balanced3_reentrant. F02 (rotated deque) was repaired on fix/sched. Nested DoDoers, whole lifetime (section G): an order-preserving embedding FitsL of the live deeds into the spec kids is established by enter (enter_establishes_nested_order), preserved by every cycle and every DoDoer yield at every depth under the no-extend guard (cycle_keeps_nested_order_partial, dodoer_yield_keeps_nested_order_partial), and every close site closes a fitting list in reverse (fits_means_reverse_enter_order, removed_closed_in_order, dodoer_raise_closes_in_order_partial, forced_exit_order_nested_partial). The bridge from spec order to positions of enter events in the trace is stated at the Doist level (forced_exit_order_partial).")
     level_note = ('Trusted: as C01.  The episode oracle (Doist.exit in do(), DoDoer exit..exitEnd, every remove() call) is independent of the model.')
-    profiles = ("mixed", "ops", "faults", "faults", "bexc", "closeops", "benter", "actfault", "xext")
+    profiles = ("mixed", "ops", "faults", "faults", "bexc", "closeops", "benter", "actfault", "xext", "cancel")
 
     def corpus(self):
         return list(S.CORPUS) + list(S.CORPUS_BEXC) + list(S.CORPUS_R2)
